@@ -151,3 +151,26 @@ def mark(ev, **kw):
     e = {'ev': ev, 'th': threading.get_ident() % 100000}
     e.update(kw)
     _emit(e)
+
+
+# ---------------------------------------------------------------------------
+# turnstile for enforced thread schedules (C18): inline Python in the grammar calls gate()
+# ---------------------------------------------------------------------------
+class Actor:
+    def __init__(self):
+        self.go = threading.Semaphore(0)
+        self.arrived = threading.Semaphore(0)
+
+
+def set_actor(actor):
+    _tls.actor = actor
+
+
+def gate(value=None):
+    """Called from inline Python at a callback point: tell the scheduler this thread has arrived and wait for its turn."""
+    actor = getattr(_tls, 'actor', None)
+    if actor is not None:
+        actor.arrived.release()
+        if not actor.go.acquire(timeout=20):
+            raise RuntimeError('turnstile: the scheduler never resumed this thread')
+    return value
